@@ -278,9 +278,32 @@ func runWorkerSlice(o Options, slot, n int, a *agg) {
 	}
 }
 
+// AllMinidynGoroutinesBlocked analyses a goroutine dump (runtime.Stack(all) or the SIGQUIT dump): it reports
+// true when at least one goroutine is inside a minidyn frame and EVERY such goroutine is parked on a mutex /
+// semaphore (none running, runnable, sleeping or in a syscall). Contention on the client mutex alone never
+// satisfies this: the holder of the mutex is inside minidyn and not parked.
+func AllMinidynGoroutinesBlocked(dump string) bool {
+	inMinidyn, blocked := 0, 0
+	for _, g := range strings.Split(dump, "\n\n") {
+		g = strings.TrimSpace(g)
+		if !strings.HasPrefix(g, "goroutine ") || !strings.Contains(g, "github.com/truora/minidyn/") {
+			continue
+		}
+		inMinidyn++
+		head := g
+		if i := strings.Index(g, "\n"); i >= 0 {
+			head = g[:i]
+		}
+		if strings.Contains(head, "[sync.Mutex.Lock") || strings.Contains(head, "[semacquire") || strings.Contains(head, "[sync.RWMutex") || strings.Contains(head, "[sync.WaitGroup.Wait") || strings.Contains(head, "[sync.Cond.Wait") || strings.Contains(head, "[chan ") || strings.Contains(head, "[select") {
+			blocked++
+		}
+	}
+	return inMinidyn > 0 && blocked == inMinidyn
+}
+
 func classifyDump(dump string) string {
-	// all workload goroutines parked on a mutex => deadlock
-	if strings.Contains(dump, "sync.(*Mutex).Lock") && !strings.Contains(dump, "interpreter/language.") {
+	// every goroutine that is inside the library is parked on a lock => deadlock
+	if AllMinidynGoroutinesBlocked(dump) {
 		return "deadlock"
 	}
 	if strings.Contains(dump, "goroutine ") && strings.Contains(dump, "[running]") && strings.Contains(dump, "minidyn/interpreter/language.") {
